@@ -40,6 +40,7 @@ type Config struct {
 	StartBranch bool  // branching enabled from the start (otherwise wait for Explore(true))
 	Trace       bool  // keep a readable log of visible operations
 	NoKeys      bool  // do not compute state keys (faster when cache is off)
+	KeyNoLast   bool  // leave the last-run goroutine out of the state key (sound when the bound is infinite)
 }
 
 type Sched struct {
@@ -1339,7 +1340,7 @@ func (s *Sched) stateKey() string {
 	}
 	sort.Strings(parts)
 	last := ""
-	if s.lastRun != nil {
+	if s.lastRun != nil && !s.Cfg.KeyNoLast {
 		last = s.lastRun.id
 	}
 	return strings.Join(parts, ",") + "|" + last + fmt.Sprintf("|t%d,%d", s.fired, s.now)
